@@ -4,7 +4,14 @@
 SPECIFICATION Spec
 CONSTANTS
   MaxChunks = 3
-  MaxSize = 3
+  UnitSizes = {0, 1, 2, 3}
+  UnitKinds = {"fmt"}
+  IfaceSets = {{}}
+  Route = "fmt"
+  MaxWrite = 0
+  PieceCount = "piece"
+  LatchBy = "test"
+  CachedViews = FALSE
   LatchError = TRUE
   CountAccepted = TRUE
   KeepFirstError = FALSE
